@@ -50,6 +50,11 @@ CHECKS = {
    technique='bounded symbolic execution (CrossHair/z3): one step of the option state machine from an arbitrary namespace state (inductive), mutator lookup and pass construction under symbolic enable flags, theory auto-detection over all declaration/user-setting patterns; real argparse end-to-end by enumeration',
    text='Each of the 139 option strings is applied by its real Action to a namespace whose mutator flags are symbolic: written attributes equal the documented constants, every other attribute is the identical object (so sequences of any length follow by induction). get_mutators returns an instance of exactly the named class iff its flag holds; hierarchical last pass = enabled set, all passes within it, ddmin schedules every enabled mutator except BinaryReduction; auto-detection disables a theory group only if it was not set by the user and nothing of the theory is declared (all 32x32 patterns x 3 declaration forms), and never enables anything.',
    note='Trusted: CrossHair/z3; registries mutators_<group>.get_mutators() as the naming source; argparse left-to-right action order (validated end to end for all single options and ordered pairs - concrete enumeration, auxiliary). Values of user-set group options are concrete in the detect harness.'),
+ 'C15': dict(
+   category='model_checking', design_ref='DESIGN.md 5 C15',
+   technique='bounded symbolic execution (CrossHair/z3) of StringSimplifyConstant -> apply_simp -> renderer -> reference reader on string literals with symbolic content; plus concrete enumeration of every node x mutator x proposal on a corpus of scripts over all theories (auxiliary)',
+   text='Solver-decided part: for every string-literal content up to the bound (any code points, doubled quotes, backslashes) every proposal of the string-shortening mutator renders to text that reads back as exactly the tree in memory. Enumerated part: on 11 corpus scripts covering all theories and the naming collisions the mutators can run into, every proposal of all 61 mutators designates nodes of the input, applies and renders without error, reads back token for token, and declares only fresh symbols before their first use.',
+   note='Trusted: CrossHair/z3 string model, refreader. Symbol names and decimals could not be made solver-quantified (str-keyed tables and float() realise symbolic strings) - they are covered by corpus scripts only, i.e. by sampling; the claim for them is limited to the corpus. Mutator exceptions are counted, not violations (C04).'),
  'C16': dict(
    category='model_checking', design_ref='DESIGN.md 5 C16',
    technique='bounded symbolic execution (CrossHair/z3) of smtlib.collect_information / get_sort / get_bv_width on generated well-sorted terms with symbolic numerals (widths, indices, extension amounts, fp sizes); generator typing validated with z3; default constants type-checked with z3',
